@@ -27,6 +27,10 @@ DEFAULT_FEAT = {
 
 
 def gen_value(rng, feat, depth=0, placeholders=None):
+    if depth == 0 and feat.get('long_values', True) and rng.random() < 0.06:
+        # long values (id lists, vocabularies, texts): variants of them differ in the MIDDLE (same_type_value)
+        n = rng.choice([120, 400])
+        return [rng.randrange(1000, 9999) for _ in range(n)] if rng.random() < 0.6 else ''.join(rng.choice('abcdefgh ') for _ in range(n))
     r = rng.random()
     if depth < 2 and r < 0.15:
         return [gen_value(rng, feat, depth + 1, placeholders) for _ in range(rng.randint(0, 3))]
@@ -553,8 +557,14 @@ def same_type_value(rng, v):
         return v + rng.choice([1, 10, -7])
     if isinstance(v, float):
         return v + 0.5
+    if isinstance(v, str) and len(v) > 100:
+        m = len(v) // 2
+        return v[:m] + ('#' if v[m] != '#' else '%') + v[m + 1:]
     if isinstance(v, str):
         return v + rng.choice(['_ctx', 'c', '2'])
+    if isinstance(v, list) and len(v) > 100:
+        m = len(v) // 2
+        return v[:m] + [same_type_value(rng, v[m])] + v[m + 1:]
     if isinstance(v, list):
         return v + ['ctx']
     if isinstance(v, dict) and 'class' not in v:
@@ -582,8 +592,9 @@ def add_context(rng, spec, root, feat):
     sources = []
     for si in range(nsrc):
         data = {}
+        long_sites = [x for x in sites if isinstance(x[2], (list, str)) and len(x[2]) > 100]
         for _ in range(rng.randint(1, 3)):
-            inst, k, v = rng.choice(sites)
+            inst, k, v = rng.choice(long_sites) if long_sites and rng.random() < 0.6 else rng.choice(sites)
             nv = same_type_value(rng, v)
             if inst['ns'] and rng.random() < 0.7:
                 data.setdefault('for_namespaces', {}).setdefault('::'.join(inst['ns']), {})[k] = nv
